@@ -10,7 +10,7 @@ A(i) == Ev.a[i]
 SX == INSTANCE SequencesExt
 MinPr == IF live = {} THEN 0 ELSE CHOOSE p \in {pr[h] : h \in live} : \A g \in live : pr[g] >= p
 O == [len |-> Cardinality(live), peekprio |-> MinPr, live |-> SX!SetToSortSeq(live, LAMBDA x, y : x < y), heapok |-> TRUE]
-Step(Act) == /\ l' = l + 1 /\ Act /\ last'.r = Ev.r /\ O' = Ev.o
+Step(Act) == /\ l' = l + 1 /\ Act /\ last'.r = Ev.r /\ ("o" \in DOMAIN Ev => O' = Ev.o)
 TReset == Ev.ev = "Reset" /\ l' = l + 1 /\ live' = {} /\ pr' = [h \in 0..MaxH |-> 0] /\ next' = 1 /\ last' = R("Init", <<>>, <<>>)
 \* PopAll: the priorities must come out in ascending order and be exactly those of the live handles
 SortedPr == LET S == {<<pr[h], h>> : h \in live}
@@ -33,7 +33,7 @@ TPopAllPush == /\ Ev.ev = "PopAllPush" /\ l' = l + 1
                        /\ ys[1][1] \in live /\ pr[ys[1][1]] = ys[1][2] /\ \A g2 \in live : pr[g2] >= ys[1][2]
                        /\ LegalDrain((live \ {ys[1][1]}) \cup {next}, [pr EXCEPT ![next] = A(1)], Tail(ys))
                        /\ live' = {} /\ pr' = [pr EXCEPT ![next] = A(1)] /\ next' = next + 1
-               /\ last' = R("PopAllPush", <<A(1)>>, Ev.r) /\ O' = Ev.o
+               /\ last' = R("PopAllPush", <<A(1)>>, Ev.r) /\ ("o" \in DOMAIN Ev => O' = Ev.o)
 
 TStep == \/ TReset
          \/ TPopAllPush
